@@ -18,7 +18,7 @@ from vt.gen import c03_magics
 # ---- the oracle's limits (calibrated on the unchanged tree, see the report in distribution["calibration"])
 CPU_BASE = 0.5          # seconds of process CPU time
 CPU_PER_CHAR = 2e-5     # seconds per input character (measured worst honest ratio: ~2.5e-6 s/char)
-OUT_BASE = 64 * 1024    # characters
+OUT_BASE = 2048         # characters (4 x the pad cap; largest honest excess seen over OUT_PER_CHAR*n: 116)
 OUT_PER_CHAR = 16       # urlencode/anchorencode of a non-BMP character: 12 output characters per input character
 
 SHAPES = collections.OrderedDict([
@@ -32,6 +32,26 @@ SHAPES = collections.OrderedDict([
     ("path", ["a/b/../c", "../../x", "Talk:A/b"]),
     ("nested", ["{{lc:AbC}}", "{{#expr:2*3}}", "{{{1|d}}}"]),
 ])
+# The full numeric grammar (every way a "number" can be written in wikitext and be accepted by int()/float()/the #expr
+# tokenizer), used at EVERY argument position of EVERY registered name (Gen.numeric_family): plain/huge/negative
+# integers, signs and padding, decimals, exponent forms whose VALUE lies far beyond any cap (2e7, 5E5: a few characters
+# of wikitext naming a huge magnitude), overflowing exponents, non-finite spellings, non-ASCII (Unicode Nd) digits.
+AR = "\u0660\u0661\u0662\u0663\u0664\u0665\u0666\u0667\u0668\u0669"      # ARABIC-INDIC digits 0-9
+FW = "\uff10\uff11\uff12\uff13\uff14\uff15\uff16\uff17\uff18\uff19"      # FULLWIDTH digits 0-9
+NUMERIC = collections.OrderedDict([
+    ("n-int", ["0", "7", "500", "501", "65537"]),
+    ("n-huge", ["3000000", "20000000", "123456789012", "99999999999999999999", "9" * 5000]),
+    ("n-neg", ["-1", "-3000000", "-99999999999999999999"]),
+    ("n-signpad", ["+7", "007", " 12 ", "1_000_000", "0x7A120", "1,000,000"]),
+    ("n-dec", ["2.5", "6.0", "600.0", "3000000.0", "20000000.5", ".5", "5.", "-2.5", "0.0", "-0.0"]),
+    ("n-exp", ["1e1", "2E2", "4e3", "5e5", "5E5", "2e7", "3E7", "2.5e6", "1e-3", "-2e7", "2e+7", "1e400", "-1e400", "9e999999",
+               "1e", "e7"]),
+    ("n-nonfinite", ["inf", "-inf", "Infinity", "nan", "NaN"]),
+    ("n-unicode", [AR[3], AR[3] + AR[0] * 6, AR[2] + AR[0] * 7, FW[3] + FW[0] * 6, AR[2] + "e" + AR[7], FW[5] + "E" + FW[5],
+                   AR[2] + "." + AR[5], "\u00b2", "\u2167"]),
+])
+NUMERIC_VALUES = [(s, v) for s in NUMERIC for v in NUMERIC[s]]
+
 SHAPE_NAMES = list(SHAPES)
 ALL_VALUES = [(s, v) for s in SHAPES for v in SHAPES[s]]
 
@@ -148,13 +168,20 @@ class Gen:
         self.seen = set()
         self.alias_called = set()
 
-    def add(self, text, canon, kind, arity, shapes, lang="en", db=None, pagename=PAGENAME, form="colon", directed=None, text_rle=None):
-        key = (lang, text if text_rle is None else json.dumps(text_rle), json.dumps(db, sort_keys=True) if db else "", pagename)
+    def add(self, text, canon, kind, arity, shapes, lang="en", db=None, pagename=PAGENAME, form="colon", directed=None, text_rle=None,
+            limit=None, budget=None, cpu_limit=None):
+        key = (lang, text if text_rle is None else json.dumps(text_rle), json.dumps(db, sort_keys=True) if db else "", pagename, limit)
         if key in self.seen:
             return
         self.seen.add(key)
         c = {"id": len(self.calls), "lang": lang, "db": db if db is not None else DB_DEFAULT, "pagename": pagename,
              "canon": canon, "fkind": kind, "arity": arity, "shapes": list(shapes), "form": form}
+        if limit is not None:
+            c["limit"] = limit
+        if budget is not None:
+            c["budget"] = budget
+        if cpu_limit is not None:
+            c["cpu_limit"] = cpu_limit
         if text_rle is not None:
             c["text_rle"] = text_rle
         else:
@@ -204,6 +231,67 @@ class Gen:
         for _ in range(2 if not thorough else 20):
             ss = tuple(rng.choice(SHAPE_NAMES) for _ in range(2))
             self.add(call_text(name, [" " + self.pick(ss[0]) + " ", "k=" + self.pick(ss[1])]), canon, kind, 2, ss, form="named")
+
+    def numeric_family(self, name, canon, kind):
+        """every value of the numeric grammar at every argument position of `name`: colon form with 1..3 arguments (the
+        other positions hold a word, and for 3 arguments also a small number), pipe form with 2..3 arguments"""
+        for s, v in NUMERIC_VALUES:
+            if "|" in v or "}" in v or "{" in v:
+                continue
+            for k in (1, 2, 3):
+                for pos in range(k):
+                    for filler in (("x",) if k < 3 else ("x", "7")):
+                        args = [filler] * k
+                        args[pos] = v
+                        self.add(call_text(name, args), canon, kind, k, tuple(s if i == pos else "word" for i in range(k)),
+                                 form="numeric@%d/%d" % (pos, k))
+            for k in (2, 3):
+                for pos in range(k):
+                    args = ["x"] * k
+                    args[pos] = v
+                    self.add(call_text(name, args, pipe=True), canon, kind, k, tuple(s if i == pos else "word" for i in range(k)),
+                             form="numeric-pipe@%d/%d" % (pos, k))
+
+    def recursion_family(self, name, canon, kind):
+        """cyclic universes whose recursive call occurs >= 2 times inside an argument of `name`: template A's body is
+        one call of `name` with the text  x{{A}}{{A}}  (or, mutually,  x{{B}}{{B}} with B = y{{A}}) at one argument position
+        (positional, as a named value `1=..`/`#default=..`/`k=..`, or as a name `..=1`), the other positions filled with
+        "1", "0" or "" so that each lazily evaluated branch is taken by some case.  The page is `s {{A}} e`.  TemplateRecursion
+        must unwind to the outermost call, i.e. the number of template-call dispatches is linear in the recursion limit:
+        budget = rec_budget(limit, number of calls in page + templates)."""
+        rng, thorough = self.rng, self.tier != "quick"
+        page = "s {{A}} e"
+        recs = [("self2", "x{{A}}{{A}}", {})]
+        if thorough:
+            recs += [("self3", "x{{A}}{{A}}{{A}}", {}), ("mutual2", "x{{B}}{{B}}", {"B": "y{{A}}"}),
+                     ("self2-arg", "x{{A|{{{1}}}}}{{A|1}}", {})]
+        else:
+            recs.append(rng.choice([("self3", "x{{A}}{{A}}{{A}}", {}), ("mutual2", "x{{B}}{{B}}", {"B": "y{{A}}"}),
+                                    ("self2-arg", "x{{A|{{{1}}}}}{{A|1}}", {})]))
+        bodies = []
+        for rtag, rec, extra in recs:
+            for pipe in (False, True):
+                for k in (1, 2, 3, 4):
+                    for pos in range(k):
+                        fillers = ("1", "0", "") if (thorough or rtag == "self2") else ("1",)
+                        for filler in fillers:
+                            args = [filler] * k
+                            args[pos] = rec
+                            bodies.append((rtag, extra, call_text(name, args, pipe=pipe), "rec%s@%d/%d" % ("-pipe" if pipe else "", pos, k)))
+                        if pos >= (0 if pipe else 1) and (thorough or rtag == "self2"):
+                            for wrap in ("1=%s", "#default=%s", "k=%s", "%s=1"):
+                                args = ["1"] * k
+                                args[pos] = wrap % rec
+                                bodies.append((rtag, extra, call_text(name, args, pipe=pipe),
+                                               "rec-named%s@%d/%d" % ("-pipe" if pipe else "", pos, k)))
+        for rtag, extra, body, form in bodies:
+            db = {"A": body}
+            db.update(extra)
+            limits = [100] + ([50, 75, 150] if thorough else [rng.choice([40, 50, 60, 75, 125, 150])] if rng.random() < 0.25 else [])
+            ncalls = page.count("{{") + sum(v.count("{{") for v in db.values())
+            for lim in limits:
+                self.add(page, canon, kind, -2, (rtag,), db=db, form=form,
+                         limit=lim, budget=rec_budget(lim, ncalls), cpu_limit=REC_CPU_LIMIT)
 
     def alias(self, a, budget):
         rng = self.rng
@@ -354,6 +442,16 @@ class Gen:
                     self.add(text, directed_canon(tag, text, parts), "directed", -1, (), lang=lang, form="directed", directed=tag)
 
 
+# work oracle of the recursion family: the clean mechanism dives once per top-level call of the page and unwinds
+# (<= limit+1 nested flatten calls, each dispatching at most the calls of one template body); REC_SLACK x that is allowed
+REC_SLACK = 4
+REC_CPU_LIMIT = 3.0
+
+
+def rec_budget(limit, ncalls):
+    return REC_SLACK * (limit + 2) * max(1, ncalls)
+
+
 def directed_canon(tag, text, parts):
     """fingerprint name of a directed probe: the (first) function it calls, so that it shares its fingerprint with
     the systematic calls of that function; probes made of several calls keep their tag"""
@@ -372,6 +470,10 @@ def generate(rng, tier, src):
     g.directed()
     for name, canon, kind in builtins:
         g.builtin(name, canon, kind)
+    for name, canon, kind in builtins:
+        g.numeric_family(name, canon, kind)
+    for name, canon, kind in builtins:
+        g.recursion_family(name, canon, kind)
     g.expr_family()
     g.time_family()
     thorough = tier != "quick"
@@ -390,6 +492,9 @@ def generate(rng, tier, src):
 
 def _payload(c):
     o = {"id": c["id"], "lang": c["lang"], "pagename": c["pagename"]}
+    for k in ("limit", "budget", "cpu_limit"):
+        if k in c:
+            o[k] = c[k]
     o["text"], o["db"] = materialize(c)
     return json.dumps(o)
 
@@ -494,11 +599,18 @@ def classify(c, r, n):
         return "exc:%s:%s" % (et, name), "expandTemplates raised " + r["exc"]
     if oc == "crash":
         return "crash:%s" % name, "the interpreter died while expanding: " + r["exc"]
+    if oc == "budget":
+        return ("work:recursion:%s" % name,
+                "%s with recursion_limit=%s: the work is not bounded by the recursion limit (TemplateRecursion does not unwind to the "
+                "outermost call; the clean mechanism needs about limit/3 dispatches)" % (r["exc"], c.get("limit", 100)))
     if oc == "timeout":
         return "time:%s" % name, "no result: " + r["exc"]
     if oc == "nonstr":
         return "nonstr:%s" % name, "expandTemplates " + r["exc"]
     cpu_lim, out_lim = limits(n)
+    if "budget" in c and r.get("dispatches", 0) > c["budget"]:
+        return ("work:recursion:%s" % name, "%d template-call dispatches with recursion_limit=%s (budget %d)"
+                % (r["dispatches"], c.get("limit", 100), c["budget"]))
     if r["outlen"] > out_lim:
         return ("size:%s" % name,
                 "output of %d characters from %d characters of input (limit %d)" % (r["outlen"], n, out_lim))
@@ -511,6 +623,9 @@ def classify(c, r, n):
 def replay_obj(c, fp):
     o = {"kind": "call", "lang": c["lang"], "pagename": c["pagename"], "db": c["db"], "expect": fp,
          "function": c["canon"], "arity": c["arity"], "shapes": c["shapes"]}
+    for k in ("limit", "budget", "cpu_limit"):
+        if k in c:
+            o[k] = c[k]
     if "text_rle" in c:
         o["text_rle"] = c["text_rle"]
     else:
@@ -541,6 +656,9 @@ def run(run, src):
             "kind": collections.Counter(), "form": collections.Counter(), "lang": collections.Counter(),
             "input_size": collections.Counter()}
     covered = collections.Counter()
+    hits = {}                  # fingerprint -> [(size key, what, replay)]: the smallest input of each root cause is reported
+    max_disp_ratio = (0.0, "")
+    max_out_excess = (0, "")
     max_cpu_ratio = (0.0, "")
     max_out_ratio = (0.0, "")
     max_cpu = (0.0, "")
@@ -555,7 +673,7 @@ def run(run, src):
         if v is not None and v[0].startswith("time:") and r["outcome"] == "ok":
             suspects.append((c, r, n))
             continue
-        _account(run, c, r, n, v, dist, covered)
+        _account(run, c, r, n, v, dist, covered, hits)
         if r["outcome"] == "ok":
             if n >= 20000 and r["cpu"] / n > max_cpu_ratio[0]:
                 max_cpu_ratio = (r["cpu"] / n, short(c))
@@ -563,6 +681,10 @@ def run(run, src):
                 max_out_ratio = (r["outlen"] / max(n, 1), short(c))
             if r["cpu"] > max_cpu[0]:
                 max_cpu = (r["cpu"], short(c))
+            if r["outlen"] - OUT_PER_CHAR * n > max_out_excess[0]:
+                max_out_excess = (r["outlen"] - OUT_PER_CHAR * n, short(c))
+            if "budget" in c and r.get("dispatches", 0) / c["budget"] > max_disp_ratio[0]:
+                max_disp_ratio = (r.get("dispatches", 0) / c["budget"], "%s with A=%s limit %s: %d dispatches" % (short(c), c["db"].get("A"), c.get("limit"), r["dispatches"]))
     # a CPU-limit hit is confirmed by a second, solitary run (other jobs share the machine)
     if suspects:
         again, _ = run_calls([c for c, _r, _n in suspects], src, min(4, nproc), timeout=1500)
@@ -570,9 +692,13 @@ def run(run, src):
             r2 = again.get(c["id"], r)
             if r2["outcome"] == "ok" and r2["cpu"] < r["cpu"]:
                 r = r2
-            _account(run, c, r, n, classify(c, r, n), dist, covered)
+            _account(run, c, r, n, classify(c, r, n), dist, covered, hits)
             if r["cpu"] > max_cpu[0]:
                 max_cpu = (r["cpu"], short(c))
+
+    for fp in sorted(hits):
+        _k, what, rep = min(hits[fp], key=lambda it: it[0])
+        run.hit(fp, what, rep)
 
     want = {canon for _n, canon, _k in builtins}
     missing = sorted(want - set(covered))
@@ -601,7 +727,10 @@ def run(run, src):
         "calibration": {"cpu_limit": "%.2fs + %.0e s/char" % (CPU_BASE, CPU_PER_CHAR), "output_limit": "%d + %d/char" % (OUT_BASE, OUT_PER_CHAR),
                         "max_cpu_seconds_seen": round(max_cpu[0], 4), "max_cpu_call": max_cpu[1],
                         "max_cpu_per_char_seen_for_inputs_ge_20000": float("%.3g" % max_cpu_ratio[0]), "max_cpu_per_char_call": max_cpu_ratio[1],
-                        "max_output_per_input_char_seen": round(max_out_ratio[0], 3), "max_output_call": max_out_ratio[1]},
+                        "max_output_per_input_char_seen": round(max_out_ratio[0], 3), "max_output_call": max_out_ratio[1],
+                        "max_output_minus_%d_per_input_char_seen" % OUT_PER_CHAR: max_out_excess[0], "max_output_excess_call": max_out_excess[1],
+                        "recursion_budget": "%d x (recursion limit + 2) x number of calls in page and templates" % REC_SLACK,
+                        "max_fraction_of_recursion_budget_used": round(max_disp_ratio[0], 4), "max_recursion_budget_call": max_disp_ratio[1]},
     }
     return {
         "rule": ("search: calls {{N}}, {{N:}}, {{N:a}}, {{N:a|b}}, {{N:a|b|c}} (+ pipe form, case variants, named arguments) for every name N "
@@ -623,10 +752,10 @@ def run(run, src):
     }
 
 
-def _account(run, c, r, n, verdict, dist, covered):
+def _account(run, c, r, n, verdict, dist, covered, hits=None):
     nontrivial = c["fkind"] != "unimpl"
     run.count((c["lang"], c.get("text") or json.dumps(c.get("text_rle")), c["pagename"], len(c["db"])), nontrivial=nontrivial)
-    dist["arity"][c["arity"] if c["arity"] >= 0 else "directed"] += 1
+    dist["arity"][c["arity"] if c["arity"] >= 0 else "recursion" if c["arity"] == -2 else "directed"] += 1
     for s in c["shapes"]:
         dist["shape"][s] += 1
     dist["kind"][c["fkind"]] += 1
@@ -642,7 +771,12 @@ def _account(run, c, r, n, verdict, dist, covered):
     dist["outcome"][k] += 1
     if verdict is not None:
         fp, what = verdict
-        run.hit(fp, "%s  [site %s]  %s" % (short(c), c["lang"], what), replay_obj(c, fp))
+        tpl = "  templates %s" % json.dumps(c["db"], ensure_ascii=False) if c["arity"] == -2 else ""
+        item = ((n, c.get("limit") or 0, c["id"]), "%s%s  [site %s]  %s" % (short(c), tpl, c["lang"], what), replay_obj(c, fp))
+        if hits is None:
+            run.hit(fp, item[1], item[2])
+        else:
+            hits.setdefault(fp, []).append(item)
     elif (c["arity"] in (2, 3) and r["outcome"] == "ok" and r["outlen"] and len(run.samples) < 6 and c["fkind"] in ("magic", "node", "alias")
           and c["id"] % 997 == 0):
         run.sample({"site": c["lang"], "wikitext": short(c), "output": r.get("out", "")[:80], "cpu_s": r["cpu"]})
@@ -651,6 +785,9 @@ def _account(run, c, r, n, verdict, dist, covered):
 def replay(r, src):
     c = {"id": 0, "lang": r.get("lang", "en"), "pagename": r.get("pagename", PAGENAME), "db": r.get("db") or {},
          "canon": r.get("function", "?"), "fkind": "replay", "arity": r.get("arity", -1), "shapes": r.get("shapes", []), "form": "replay"}
+    for k in ("limit", "budget", "cpu_limit"):
+        if k in r:
+            c[k] = r[k]
     if "text_rle" in r:
         c["text_rle"] = r["text_rle"]
     else:
